@@ -121,8 +121,8 @@ Proof. vm_compute. repeat split; reflexivity. Qed.
 
 (* ---------------------------------------------------------------------------------------------
    Calls.  PARTIAL (hence the name): for every program both machines accept -- any mix of data with
-   GLOBAL / STACK_GLOBAL / INST / OBJ / NEWOBJ / REDUCE / BINPERSID / BUILD on an object / SETITEM on an
-   object, any length -- evaluating the decompiled program succeeds, its result unfolds to the same
+   GLOBAL / STACK_GLOBAL / INST / OBJ / NEWOBJ / REDUCE / BINPERSID / BUILD on an object / SETITEM and
+   SETITEMS on an object (one item assignment per pair, finding D22 repaired), any length -- evaluating the decompiled program succeeds, its result unfolds to the same
    tree as the VM's value, and its event log IS the VM's log: same imports (resolves of builtins are
    implicit in Python), same callee and arguments for every call, same persistent ids, same state
    applied to the same object, same item assignments, in the same order, with opaque results
@@ -136,8 +136,6 @@ Proof. vm_compute. repeat split; reflexivity. Qed.
      distinct_attr_names      finding D14: same attribute name => same module.
    MISSING (defined_before_use is false on them, so they are outside the theorem; the differential
    layer-B tie still covers them):
-     - SETITEMS on a stand-in object (`_var.update({...})`: Python merges equal keys and hashes them,
-       the VM assigns item by item),
      - NEWOBJ_EX with keyword arguments (a call with star-args and double-star keyword arguments),
      - BUILD / SETITEM(S) applied to a global itself (`_var0 = name`). *)
 Theorem C05_eval_agrees_partial : forall p n f v x,
@@ -160,6 +158,19 @@ Example C05_eval_agrees_nonvacuous :
       vstopped v = Some (VTuple [VObj 0; VRef 0]) /\
       List.length (log v) = 3 /\ List.length (plog st) = 3 /\
       presult st = Some (VTuple [VObj 0; VRef 3])
+  | _, _, _ => False
+  end.
+Proof. vm_compute. repeat split; reflexivity. Qed.
+
+(* SETITEMS on an object with a repeated and an unhashable key (the D22 witnesses): covered now *)
+Example C05_eval_agrees_setitems_on_object :
+  let p := [OGlobal "os" "system"; OEmptyTuple; OReduce; OMark; OConst (CStr "a"); OConst (CInt 1); OConst (CStr "a");
+            OConst (CInt 2); OEmptyList; OConst (CInt 3); OSetItems; OStop] in
+  match run p, vrun p, py_run 5 p with
+  | Ok f, Ok v, Ok st =>
+      defined_before_use 5 f = true /\ distinct_attr_names (log v) = true /\
+      List.length (log v) = 5 /\ List.length (plog st) = 5 /\
+      forallb2 (same_event 5 (heap v) (pheap st)) (filter visible_event (log v)) (plog st) = true
   | _, _, _ => False
   end.
 Proof. vm_compute. repeat split; reflexivity. Qed.
